@@ -414,6 +414,14 @@ def _check_accuracy(cell, case, ctx):
             floor = max(abs(ref[k]), mpf(1))
         elif op.result == "vec":
             floor = max(abs(ref[k]), norm)
+            if names[k] == "tau" and len(ref) == 4 and ref[k] != 0:
+                # a proper time that comes out of a computation in Cartesian components carries t^2 - |p|^2: rounding t at
+                # relative u moves tau by u t^2 / tau - inherent to any route through (x, y, z, t), not a property of one formula
+                try:
+                    t_ref = R.to_cartesian(sysr, tuple(ref))[3]
+                    floor = max(floor, t_ref * t_ref / abs(ref[k]))
+                except Exception:  # noqa: BLE001
+                    pass
         else:
             floor = abs(ref[k])
         tol = ACC_C * U * (sens[k] + floor) + mpf("1e-300")
